@@ -38,6 +38,17 @@ def judge (f : Int) (obs : String) : String :=
   else if obs == (expect f).wire then "holds"
   else "fails:" ++ (expect f).cls
 
+/-- verdict on a reading INSIDE the leap second that follows second `f` (23:59:60.x when `f` is a 23:59:59): the text asks
+for "whole seconds since 1970-01-01T00:00:00Z", the type's documentation adds "not counting leap seconds". Two answers are
+defensible — the second the reading hangs on (`f`: chrono's `timestamp()`, the usual "repeat :59" convention) and the next
+one (`f + 1`: the POSIX `mktime` normalisation of `:60`) — nothing else is (not `f + 2`, not `f − 1`, not an error when both
+`f` and `f + 1` convert); and never a panic. -/
+def judgeLeap (f : Int) (obs : String) : String :=
+  if obs == "unrepresentable" then "dontcare"
+  else if obs == "panic" then "fails:panic"
+  else if obs == (expect f).wire || obs == (expect (f + 1)).wire then "holds"
+  else "fails:leap"
+
 /-- `ok <n>` → `n` -/
 def okValue (obs : String) : Option Nat :=
   match obs.splitOn " " with
